@@ -3,7 +3,11 @@
 import json, os
 V = os.path.dirname(os.path.dirname(os.path.abspath(__file__)))
 R = json.load(open(os.path.join(V, "harmless", "RESULTS.json")))
-NOTES = {"C05-h2": "ALARM is justified: the change is not harmless. Turning the half-cell guards from `>` into `>=` returns no position for an "
+NOTES = {"C04-h2": "QUIET for C04 (its own property), C06 and C12. The ALARM of C05 is justified: rounding the result through x 1e6 / 1e6 moves a longitude of "
+                   "magnitude >= 1e10 by one ulp (16 deg at 1e17), so for the absurd references of C05's second clause (\"any finite reference whatsoever ... "
+                   "within half a zone of the reference\") the returned longitude is no longer within half a zone of the reference. Literal, if esoteric, "
+                   "violation of C05 - the change is harmless for C04 only.",
+         "C05-h2": "ALARM is justified: the change is not harmless. Turning the half-cell guards from `>` into `>=` returns no position for an "
                    "IN-RANGE reference whose longitude is exactly half a zone (180 deg, NL = 1) from the aircraft near the pole (true (89.9996, -180), "
                    "reference (88.87, -360), 125.6 km apart): clause 1 of C05 is broken. The agent's argument (\"in-range references cannot tie\") "
                    "overlooked the polar case; the check found it."}
